@@ -46,7 +46,12 @@ class Ctx:
         self.cov['translator'] = summary
         if not ok:
             self.broken.append({'kind': 'translator', 'detail': msg})
-        ok, out = vlib.coq_make()
+        # only this property's dependency cone (plus the model, which extraction needs): a broken obligation of
+        # another property must not disturb this one
+        targets = ['Model/Derive.vo']
+        if os.path.exists(os.path.join(vlib.COQ, 'Props', self.prop + '.v')):
+            targets.append('Props/%s.vo' % self.prop)
+        ok, out = vlib.coq_make(targets)
         if not ok:
             self.broken.append({'kind': 'proof', 'detail': 'coq build failed (a regenerated table, the model or a lemma no longer checks):\n' + out[-3000:]})
         bad = vlib.hygiene()
@@ -999,7 +1004,141 @@ def prop_C07(ctx):
     return ctx.finish()
 
 
+# ---------------------------------------------------------------------------------------------- C08
+def c08_facts(sem, it):
+    """per impl of the instruction under test: the facts the statement fixes, read off the SEM summary"""
+    spec = it.meta['spec']
+    res = []
+    ims = oracles.sem_impls(sem)
+    if ims is None:
+        return None
+    for key, imp in ims:
+        if key is None or key[2] != 'A':
+            continue
+        kind, fallible, cp, _ = key
+        src = 'value' if kind.startswith('from') else 'self'
+        existing = kind.endswith('existing')
+        f = oracles.node(imp, 'fn')
+        fn_attrs = [oracles.sval(x) for x in oracles.node(f, 'attrs')[1:]] if f is not None and oracles.node(f, 'attrs') else []
+        impl_attrs = [oracles.sval(x) for x in oracles.node(imp, 'attrs')[1:]] if oracles.node(imp, 'attrs') else []
+        blk = oracles.fn_block(imp)
+        stmts = blk[1:] if blk else []
+        problems = []
+        # attributes
+        for nm, where, pre in (('attribute', fn_attrs, ''), ('inner_attribute', fn_attrs, '!'), ('impl_attribute', impl_attrs, '')):
+            want = spec[nm]
+            have = [a for a in where if a.startswith('!') == (pre == '!')]
+            if want is not None:
+                if pre + oracles.nsp(want) not in [oracles.nsp(a) for a in have]:
+                    problems.append('%s(%s) is not attached (found %r)' % (nm, want, have))
+            elif have:
+                problems.append('unexpected %s %r' % (nm, have))
+        # vars: let bindings, in order, once, before everything else (after `let mut obj` in the post-init form)
+        lets = [(oracles.sval(x[1]), oracles.sem_text(x[2]) if len(x) > 2 else '') for x in stmts if x[0] == 'let']
+        lets_no_obj = [l for l in lets if l[0] != 'mutobj:A' and not l[0].startswith('mutobj')]
+        want_lets = [(k, oracles.subst_text(e, '<no-tilde>', src)) for k, e in (spec['vars'] or [])]
+        got_lets = [(k, oracles.nsp(v)) for k, v in lets_no_obj]
+        def norm_block(v):
+            return v[1:-1] if v.startswith('{') and v.endswith('}') and ';' not in v else v
+        if [(k, norm_block(v)) for k, v in got_lets] != [(k, norm_block(v)) for k, v in want_lets]:
+            problems.append('vars: expected bindings %r, found %r' % (want_lets, got_lets))
+        else:
+            # position: all lets (except `let mut obj`) come before any other statement
+            seen_other = False
+            for x in stmts:
+                if x[0] == 'let':
+                    if seen_other and not oracles.sval(x[1]).startswith('mutobj'):
+                        problems.append('a vars binding comes after other statements')
+                elif x[0] != 'item':
+                    seen_other = True
+        tail = spec['tail']
+        rest = [x for x in stmts if x[0] != 'let']
+        if tail and tail[0] == 'return':
+            want = oracles.subst_text(tail[1], src + '.', src)
+            if existing:
+                ok = len(rest) >= 1 and rest[0][0] == 'stmt' and isinstance(rest[0][1], list) and rest[0][1][0] == 'assign' \
+                    and oracles.sval(rest[0][1][1]) == '*other' and oracles.nsp(oracles.sem_text(rest[0][1][2])) == want
+                extra = [x for x in rest[1:] if not (x[0] == 'tail' and oracles.sem_text(x[1]) == 'Ok(())')]
+                if not ok or extra:
+                    problems.append('return: expected the body `*other = %s;`, found %r' % (want, [oracles.sem_text(x[1]) for x in rest]))
+            else:
+                ok = len(rest) == 1 and rest[0][0] == 'tail' and oracles.nsp(oracles.sem_text(rest[0][1])) == want
+                if not ok:
+                    problems.append('return: expected the body `%s`, found %r' % (want, [oracles.sem_text(x[1]) for x in rest]))
+        if tail and tail[0] == 'update' and not existing:
+            want = oracles.subst_text(tail[1], '<no-tilde>', src)
+            e = rest[-1][1] if rest and rest[-1][0] == 'tail' else None
+            if fallible and isinstance(e, list) and e[0] == 'call' and oracles.sval(e[1]) == 'Ok' and len(e) == 3:
+                e = e[2]
+            if isinstance(e, list) and e[0] == 'struct':
+                restx = [x for x in e[2:] if x[0] in ('rest', 'rest-empty')]
+                fields = [oracles.sval(x[1]) for x in e[2:] if x[0] == 'f']
+                if not restx or restx[0][0] != 'rest' or oracles.nsp(oracles.sem_text(restx[0][1])) != want:
+                    problems.append('..update: expected `..%s` as the base of the literal' % want)
+                exp_fields = expected_literal_fields(it, kind)
+                if exp_fields is not None and sorted(fields) != sorted(exp_fields):
+                    problems.append('..update: the literal lists %r, the member instructions provide %r' % (sorted(fields), sorted(exp_fields)))
+        res.append(((kind, fallible), problems))
+    return res
+
+
+def expected_literal_fields(it, kind):
+    """destination fields the members of a c08 struct provide for the conversion"""
+    if it.kind != 'struct' or it.shape != 'named':
+        return None
+    out = []
+    for f in it.members:
+        names = [a.name for a in f.attrs]
+        if 'parent' in names:
+            return None
+        if 'ghost' in names:
+            continue
+        if kind.startswith('from'):
+            out.append(f.name)
+        else:
+            m = [a for a in f.attrs if a.name == 'map']
+            out.append(m[0].args if (m and re.fullmatch(r'\w+', m[0].args or '')) else f.name)
+    return out
+
+
+def obs_C08(s, rec=None):
+    c = vlib.outcome_class(s)
+    if c != 'ok':
+        return vlib.obs_msgs(s)
+    sem = rec.get('sem') if s is rec.get('out') else rec.get('msem')
+    it = rec.get('item')
+    if sem is None or it is None or 'spec' not in it.meta:
+        return ('ok', sem)
+    return ('ok', repr(c08_facts(sem, it)))
+
+
+def prop_C08(ctx):
+    ctx.build()
+    q = ctx.tier == 'quick'
+    recs = ctx.run_set('params', gen.c08_cases(ctx.rng, 5000 if q else 50000), obs_C08, sem=True)
+    n = 0
+    for r in recs:
+        if vlib.outcome_class(r['out']) != 'ok' or not r.get('sem'):
+            continue
+        facts = c08_facts(r['sem'], r['item'])
+        if facts is None:
+            continue
+        want_kinds = set(gen.kinds_of(r['item'].meta['instr']))
+        got_kinds = set(k for k, _ in facts)
+        if want_kinds != got_kinds:
+            continue      # C04's subject
+        for (kind, fallible), problems in facts:
+            n += 1
+            for p in problems:
+                cell = 'qret-parent' if (r['item'].meta['spec']['tail'] or ('',))[0] == 'return' and any(a.name == 'parent' for f in r['item'].members for a in getattr(f, 'attrs', [])) else None
+                ctx.report(r, 'impl (%s, fallible=%s): %s' % (kind, fallible, p), 'parameter facts read off the syn-parsed impl', key=cell or ('param:' + p.split(':')[0].split(' ')[0]))
+    ctx.cov['impls_checked'] = n
+    generic_sets(ctx, ['corpus'], vlib.obs_full)
+    return ctx.finish()
+
+
 PROPS = {
+    'C08': prop_C08,
     'C07': prop_C07,
     'C01': prop_C01,
     'C15': prop_C15,
